@@ -37,6 +37,12 @@ Proof.
   rewrite <- (wf_pair_strict_iff l r N1 R1 N2 R2). now apply C17_check_datasets_iff_wellformed.
 Qed.
 
+(* PER-RUN OBLIGATION: check_datasets calls check_dataset twice (left and right) before its own
+   two tests, as the model does *)
+Theorem C17_both_datasets_checked :
+  firstn 2 calls_check_datasets = ["check_dataset"; "check_dataset"].
+Proof. reflexivity. Qed.
+
 (* REFUSAL IS AN EXCEPTION: the check either returns normally or raises AttributeError,
    TypeError or ValueError; there is no third outcome *)
 Theorem C17_dataset_refusal_is_exception : forall l r,
@@ -234,6 +240,7 @@ Proof. repeat split; vm_compute; reflexivity. Qed.
 Print Assumptions C17_mandatory_attributes_match.
 Print Assumptions C17_check_datasets_iff_wellformed.
 Print Assumptions C17_check_datasets_iff_wellformed_numbers.
+Print Assumptions C17_both_datasets_checked.
 Print Assumptions C17_dataset_refusal_is_exception.
 Print Assumptions C17_every_violation_refused.
 Print Assumptions C17_schemas_as_modelled.
